@@ -143,6 +143,24 @@ CHECKS = {
         "|displacement| < h as the statement requires.",
         "DESIGN.md §2 C15",
     ),
+    "C10": (
+        "model_checking",
+        "exhaustive lattice of frame layouts x file compositions x release tables x schemes: paired Model runs (reversed vs time-mirrored sign-flipped forward), record-by-record differential",
+        "For every (run length, frame layout incl. spacing = dt and irregular spacing, composition into files, release table discrete/continuous with 2-3 release "
+        "times, scheme, output period): the reversed run and the forward run in the mirrored, sign-flipped flow give the same pids at the same positions "
+        "(1e-12) in every record; the reversed clock and time coordinate read S - k*dt; each release appears at its stated time.",
+        "Scalar forcing under reversal excluded; diffusion off.",
+        "DESIGN.md §2 C10",
+    ),
+    "C08": (
+        "model_checking",
+        "scenario lattice x EVERY file boundary as crash/restart point: uninterrupted split run vs each warm-started run, compared record by record by decoded absolute time",
+        "For every scenario (scheme, discrete/continuous release, deaths by IBM age limit / leaving the grid / both, scalar forcing, numrec 1-3, duration multiple "
+        "or not of the period, particle variables on/off) and every completed file of the split run: the run warm-started from that file reproduces every later "
+        "record (pids, positions, age, forcing-derived temp, tags, particle variables, newly released particles, file names). One genuine defect is listed as a known finding.",
+        "Restart configured as documented; float64 output; the extra warm-run record at exactly stop is not compared.",
+        "DESIGN.md §2 C08",
+    ),
 }
 
 PENDING_REASON = "check not built yet (work in progress, see DESIGN.md §11 build order)"
